@@ -278,6 +278,13 @@ def oracle(case, out, stats):
             if o.split() != exp.split():
                 bad('offset', line, o, 'reported offset must be the accumulated offset %s modulo %s = %s' % (
                     list(orc.A), list(orc.dims), exp), delta=xs[:dim])
+        elif op == 'wg.trq':
+            xs = [int(x) for x in tk[1:]]
+            orc.translate(xs[:dim], xs[dim])
+            nops += 1
+            stats['quiet_translations'] = stats.get('quiet_translations', 0) + 1
+            if o != 'ok':
+                bad('outcome', line, o, 'expected ok')
         elif op == 'wg.get':
             i = [int(x) for x in tk[1:]]
             exp = 'val %d' % orc.get(i)
@@ -431,7 +438,8 @@ def _random_case(rng, name, max_tr=50, max_n=8):
             keep = rng.below(dim)
             d = [x if a == keep else 0 for a, x in enumerate(d)]
         e = 0 if e_mode == 0 else (-(t + 1) if e_mode == 1 else rng.choice([0, -1, DEFAULT, 2147483647, -2147483648, rng.int(-1000, 1000)]))
-        lines.append(_tr(d, e))
+        # a third of the translations are "quiet" (the reported offset is not read after them): getters must not have side effects
+        lines.append(_tr(d, e) if not rng.chance(0.33) else _tr(d, e).replace('wg.tr ', 'wg.trq ', 1))
         if rng.chance(0.8):
             lines.append('wg.dump')
         w = p_write
